@@ -429,6 +429,276 @@ impl<const N: usize> ScenN<N> {
         out
     }
 
+    /// (key, timestamp, flags, data len) of every record of a blob image, parsed independently of pearl
+    fn parse_records(bytes: &[u8]) -> Vec<(Vec<u8>, u64, u8, usize)> {
+        let mut out = Vec::new();
+        for (start, hsz, _ms, ds) in Self::parse_blob(bytes) {
+            let klen = hsz - 57;
+            if start + hsz > bytes.len() {
+                break;
+            }
+            let key = bytes[start + 16..start + 16 + klen].to_vec();
+            let flags = bytes[start + 32 + klen];
+            let mut t = [0u8; 8];
+            t.copy_from_slice(&bytes[start + 41 + klen..start + 49 + klen]);
+            out.push((key, u64::from_le_bytes(t), flags, ds));
+        }
+        out
+    }
+
+    /// `toolsweep <budget> <seed>`: close the storage; offline tools on every blob/index it produced:
+    /// validation accepts them; truncated or corrupted copies are rejected; recovery of a damaged copy validates,
+    /// keeps every intact record before the damage (and after an isolated damaged record when skipping) and is
+    /// served by the storage with original bytes; a v0 image migrates back to the original; index readers report
+    /// exactly the headers of the blob
+    fn toolsweep(&mut self, toks: &[&str]) -> String {
+        use pearl::tools::{migrate_blob, read_index_sync, recovery_blob, validate_blob, validate_index};
+        let budget: usize = toks.get(1).and_then(|x| x.parse().ok()).unwrap_or(30);
+        let mut x: u64 = toks.get(2).and_then(|x| x.parse().ok()).unwrap_or(1) | 1;
+        let mut rnd = move || {
+            x ^= x << 13;
+            x ^= x >> 7;
+            x ^= x << 17;
+            x
+        };
+        if let Some(st) = self.st.take() {
+            let r = self.rt.block_on(async { tokio::time::timeout(Duration::from_secs(60), st.close()).await });
+            if !matches!(r, Ok(Ok(()))) {
+                return "err close".into();
+            }
+        }
+        let orig = self.dir.clone();
+        let work = orig.with_file_name(format!("{}-tools", orig.file_name().unwrap().to_string_lossy()));
+        let _ = std::fs::remove_dir_all(&work);
+        std::fs::create_dir_all(&work).unwrap();
+        let mut blobs: Vec<PathBuf> = std::fs::read_dir(&orig)
+            .unwrap()
+            .flatten()
+            .map(|e| e.path())
+            .filter(|p| p.extension().map_or(false, |x| x == "blob"))
+            .collect();
+        blobs.sort();
+        let mut n = 0usize;
+        let mut bad: Option<String> = None;
+        let crc = crc::Crc::<u32>::new(&crc::CRC_32_ISCSI);
+        'outer: for bp in &blobs {
+            let bname = bp.file_name().unwrap().to_string_lossy().to_string();
+            let bytes = std::fs::read(bp).unwrap_or_default();
+            let layout = Self::parse_blob(&bytes);
+            let recs = Self::parse_records(&bytes);
+            // 1. the tools accept what the storage produced
+            n += 1;
+            if let Err(e) = validate_blob(bp) {
+                bad = Some(format!("{}: validate_blob rejects a produced blob: {}", bname, e));
+                break;
+            }
+            let ip = bp.with_extension("index");
+            if ip.exists() {
+                let idx_bytes = std::fs::read(&ip).unwrap_or_default();
+                let mut bs = [0u8; 8];
+                if idx_bytes.len() >= 83 {
+                    bs.copy_from_slice(&idx_bytes[75..83]);
+                }
+                let fresh = u64::from_le_bytes(bs) == bytes.len() as u64;
+                if fresh {
+                    n += 1;
+                    if let Err(e) = validate_index::<ArrayKey<N>>(&ip) {
+                        bad = Some(format!("{}: validate_index rejects a produced index: {}", bname, e));
+                        break;
+                    }
+                    if [4usize, 8, 16, 32, 64, 128].contains(&N) {
+                        match read_index_sync(&ip) {
+                            Ok(map) => {
+                                let total: usize = map.values().map(|v| v.len()).sum();
+                                let mut keys: Vec<Vec<u8>> = recs.iter().map(|r| r.0.clone()).collect();
+                                keys.sort();
+                                keys.dedup();
+                                let ikeys: Vec<Vec<u8>> = map.keys().cloned().collect();
+                                let per_key_ok = map.iter().all(|(k, v)| v.len() == recs.iter().filter(|r| &r.0 == k).count());
+                                if total != recs.len() || keys != ikeys || !per_key_ok {
+                                    bad = Some(format!("{}: read_index reports {} headers / {} keys, the blob holds {} / {}",
+                                        bname, total, ikeys.len(), recs.len(), keys.len()));
+                                    break;
+                                }
+                            }
+                            Err(e) => {
+                                bad = Some(format!("{}: read_index fails on a produced index: {}", bname, e));
+                                break;
+                            }
+                        }
+                    }
+                }
+                // truncated index copies are rejected
+                if idx_bytes.len() > 100 && fresh {
+                    for cut in [1usize, 40, idx_bytes.len() / 2] {
+                        let tp = work.join(&bname);
+                        std::fs::write(&tp, &bytes).unwrap();
+                        let tip = tp.with_extension("index");
+                        std::fs::write(&tip, &idx_bytes[..idx_bytes.len() - cut]).unwrap();
+                        n += 1;
+                        if validate_index::<ArrayKey<N>>(&tip).is_ok() {
+                            bad = Some(format!("{}: validate_index accepts an index truncated by {} bytes", bname, cut));
+                            break 'outer;
+                        }
+                    }
+                }
+            }
+            if layout.is_empty() {
+                continue;
+            }
+            // 2. migration: a v0 image of this blob migrates back to exactly this blob
+            {
+                let mut v0 = bytes.clone();
+                v0[8..12].copy_from_slice(&0u32.to_le_bytes());
+                for (start, hsz, _, _) in &layout {
+                    let klen = hsz - 57;
+                    v0[start + 16..start + 16 + klen].reverse();
+                    let cpos = start + hsz - 4;
+                    v0[cpos..cpos + 4].copy_from_slice(&0u32.to_le_bytes());
+                    let c = crc.checksum(&v0[*start..start + hsz]);
+                    v0[cpos..cpos + 4].copy_from_slice(&c.to_le_bytes());
+                }
+                let ip0 = work.join("v0.blob");
+                let op0 = work.join("v1.blob");
+                let _ = std::fs::remove_file(&op0);
+                std::fs::write(&ip0, &v0).unwrap();
+                n += 1;
+                match migrate_blob(&ip0, &op0, 1, 1) {
+                    Ok(()) => {
+                        let out = std::fs::read(&op0).unwrap_or_default();
+                        if out != bytes {
+                            bad = Some(format!("{}: migration v0->v1 does not reproduce the blob ({} vs {} bytes)", bname, out.len(), bytes.len()));
+                            break;
+                        }
+                    }
+                    Err(e) => {
+                        bad = Some(format!("{}: migration failed: {}", bname, e));
+                        break;
+                    }
+                }
+            }
+            // 3. damage: truncations and flipped bytes per position class
+            let mut cases: Vec<(String, Vec<u8>, usize, bool)> = Vec::new(); // (what, image, index of first damaged record, isolated)
+            for (ri, (start, hsz, ms, ds)) in layout.iter().enumerate() {
+                let end = start + hsz + ms + ds;
+                for t in [start + 1, start + hsz / 2, start + hsz, start + hsz + ms + ds / 2, end - 1] {
+                    if t > *start && t < end && t < bytes.len() {
+                        cases.push((format!("trunc@{} (record {})", t, ri), bytes[..t].to_vec(), ri, false));
+                    }
+                }
+                let klen = hsz - 57;
+                // header bytes that do not change lengths: key byte, flags, blob_offset low byte, timestamp, checksums
+                for off in [16usize, 32 + klen, 33 + klen, 41 + klen, 49 + klen, 53 + klen] {
+                    if off < *hsz {
+                        let mut b = bytes.clone();
+                        b[start + off] ^= 0x21;
+                        cases.push((format!("hflip@{}+{} (record {})", start, off, ri), b, ri, true));
+                    }
+                }
+                if *ds > 0 {
+                    let mut b = bytes.clone();
+                    let p = start + hsz + ms + (rnd() as usize % ds);
+                    b[p] ^= 0x40;
+                    cases.push((format!("dflip@{} (record {})", p, ri), b, ri, true));
+                }
+            }
+            {
+                let mut b = bytes.clone();
+                b[3] ^= 0x10;
+                cases.push(("blob magic".into(), b, 0, false));
+            }
+            let total = cases.len();
+            let chosen: Vec<usize> = if total <= budget { (0..total).collect() } else { (0..budget).map(|i| (i * total) / budget).collect() };
+            for ci in chosen {
+                let (what, image, first_bad, isolated) = &cases[ci];
+                let dp = work.join("damaged.blob");
+                std::fs::write(&dp, image).unwrap();
+                n += 1;
+                if validate_blob(&dp).is_ok() {
+                    bad = Some(format!("{}: validate_blob accepts {}", bname, what));
+                    break 'outer;
+                }
+                if what == "blob magic" {
+                    continue;
+                }
+                for skip in [false, true] {
+                    let op = work.join("recovered.blob");
+                    let _ = std::fs::remove_file(&op);
+                    let r = recovery_blob(&dp, &op, 1, skip);
+                    if let Err(e) = r {
+                        bad = Some(format!("{}: recovery (skip={}) of {} failed: {}", bname, skip, what, e));
+                        break 'outer;
+                    }
+                    if let Err(e) = validate_blob(&op) {
+                        bad = Some(format!("{}: recovered blob (skip={}) of {} does not validate: {}", bname, skip, what, e));
+                        break 'outer;
+                    }
+                    let out = std::fs::read(&op).unwrap_or_default();
+                    let got = Self::parse_records(&out);
+                    let mut want: Vec<(Vec<u8>, u64, u8, usize)> = recs[..*first_bad].to_vec();
+                    if skip && *isolated && first_bad + 1 < recs.len() {
+                        want.extend_from_slice(&recs[first_bad + 1..]);
+                    }
+                    let prefix_ok = got.len() >= *first_bad && got[..*first_bad] == recs[..*first_bad];
+                    if !prefix_ok || (skip && *isolated && got != want) {
+                        bad = Some(format!("{}: recovery (skip={}) of {}: {} records out, expected {} (intact before the damage: {})",
+                            bname, skip, what, got.len(), want.len(), first_bad));
+                        break 'outer;
+                    }
+                    // the storage must serve every record of the recovered blob with its original bytes
+                    let sd = work.join("serve");
+                    let _ = std::fs::remove_dir_all(&sd);
+                    std::fs::create_dir_all(&sd).unwrap();
+                    std::fs::copy(&op, sd.join("t.0.blob")).unwrap();
+                    let saved_dir = self.dir.clone();
+                    self.dir = sd.clone();
+                    let r = self.open(false);
+                    if r != "ok" {
+                        self.dir = saved_dir;
+                        bad = Some(format!("{}: storage cannot open the recovered blob (skip={}) of {}: {}", bname, skip, what, r));
+                        break 'outer;
+                    }
+                    let mut keys: Vec<Vec<u8>> = got.iter().map(|r| r.0.clone()).collect();
+                    keys.sort();
+                    keys.dedup();
+                    let mut serve_bad = None;
+                    for k in keys {
+                        let o = self.exec(&format!("ram {}", bytes_hex(&k)));
+                        let cnt = got.iter().filter(|r| r.0 == k).count();
+                        if o.contains("err ") || o.contains(":?") {
+                            serve_bad = Some(format!("key {} -> {}", bytes_hex(&k), o));
+                            break;
+                        }
+                        let listed = if o == "list" { 0 } else { o[5..].split(';').count() };
+                        let has_del = got.iter().any(|r| r.0 == k && r.2 & 1 == 1);
+                        if !has_del && listed != cnt {
+                            serve_bad = Some(format!("key {}: {} entries served, {} in the recovered blob", bytes_hex(&k), listed, cnt));
+                            break;
+                        }
+                    }
+                    if let Some(st) = self.st.take() {
+                        let _ = self.rt.block_on(async { tokio::time::timeout(Duration::from_secs(60), st.close()).await });
+                    }
+                    self.dir = saved_dir;
+                    if let Some(sb) = serve_bad {
+                        bad = Some(format!("{}: storage does not serve the recovered blob (skip={}) of {}: {}", bname, skip, what, sb));
+                        break 'outer;
+                    }
+                }
+            }
+        }
+        let _ = std::fs::remove_dir_all(&work);
+        self.dir = orig;
+        let r = self.open(false);
+        if r != "ok" {
+            return format!("err reopen {}", r);
+        }
+        match bad {
+            None => format!("sweep ok n={}", n),
+            Some(b) => format!("sweep bad {}", b),
+        }
+    }
+
     /// `flipsweep <budget> <seed>`: close; alter stored data bytes (single bit, whole byte, bursts up to 32 bits)
     /// in copies of the directory, with the index kept / removed and data validation off / on; reopen and read
     /// everything: altered bytes must never be returned by a successful read
@@ -692,6 +962,9 @@ impl<const N: usize> ScenN<N> {
         }
         if toks[0] == "flipsweep" {
             return self.flipsweep(&toks);
+        }
+        if toks[0] == "toolsweep" {
+            return self.toolsweep(&toks);
         }
         if toks[0] == "restart" || toks[0] == "close" {
             let lazy = toks.len() > 1 && toks[1] == "lazy";
